@@ -84,6 +84,7 @@ impl MemoryManagerInner {
             return false;
         }
         for token_ptr in &self.tokens {
+            vpoint!(MM_TRYFREE_TOKEN);
             unsafe {
                 let token = &**token_ptr;
                 let epoch = token.epoch.load(MAYBE_ACQUIRE);
@@ -94,6 +95,7 @@ impl MemoryManagerInner {
         }
         maybe_acquire_fence();
         for val in self.tofree.drain(..) {
+            vpoint!(MM_DEALLOC);
             val.delete();
         }
         self.epoch = at;
@@ -122,6 +124,7 @@ impl MemoryManager {
 
     pub fn remove_token(&self, token: *const MemToken) {
         self.update_token(token);
+        vpoint!(MM_REMOVE_TOKEN);
         let mut inner = self.mem_manager.lock().unwrap();
         inner.remove_token(token);
         self.free(token as *mut MemToken, 1);
@@ -135,17 +138,21 @@ impl MemoryManager {
                 let mut newv = Vec::new();
                 mem::swap(&mut newv, elemvec);
                 inner.add_freeable(newv);
+                vpoint!(MM_EPOCH_BUMP);
                 self.epoch
                     .store(cur_epoch.wrapping_add(1), Ordering::Release);
                 self.signal.set_epoch(Ordering::Release);
+                vpoint!(MM_EPOCH_BUMP);
             }
         });
     }
 
     #[cold]
     pub fn free<T>(&self, pt: *mut T, num: usize) {
+        vpoint!(MM_FREE_ENTRY);
         let mut elemvec = self.wait_to_free.lock().unwrap();
         elemvec.push(ToFree::new(pt, num));
+        vpoint!(MM_FREE_QUEUED);
         {
             let _lock = self.mem_manager.try_lock().map(|mut inner| {
                 let epoch = self.epoch.load(Ordering::SeqCst);
@@ -166,6 +173,7 @@ impl MemoryManager {
             let epoch = self.epoch.load(Ordering::Relaxed);
             let token_e = token.epoch.load(Ordering::Relaxed);
             if token_e != epoch {
+                vpoint!(MM_UPDATE_TOKEN);
                 token.epoch.store(epoch, Ordering::Release);
             }
         }
